@@ -346,11 +346,14 @@ func (s *Recursive) buildTupleMapperForID(ctx context.Context, req *Request, edg
 		iter = iterator.Concat(ctxIter, iter)
 	}
 	iterFilters := make([]iterator.FilterFunc[*openfgav1.TupleKey], 0, 2)
-	iterFilters = append(iterFilters, BuildUniqueTupleKeyFilter(visited, uniqueKeyFunc))
+	// The condition filter must run before the visited filter: a tuple that is dropped because its
+	// condition is not met must not mark its userset as visited, or an unconditional tuple naming the
+	// same userset is skipped and the answer depends on the order of the traversal.
 	conditions := edge.GetConditions()
 	if len(conditions) > 0 && (len(conditions) > 1 || conditions[0] != authzGraph.NoCond) {
 		iterFilters = append(iterFilters, BuildConditionTupleKeyFilter(ctx, s.model, conditions, req.GetContext()))
 	}
+	iterFilters = append(iterFilters, BuildUniqueTupleKeyFilter(visited, uniqueKeyFunc))
 	i := iterator.NewFilteredIterator(iter, iterFilters...)
 	return storage.WrapIterator(kind, i), nil
 }
